@@ -14,6 +14,8 @@ import (
 	"sync"
 	"syscall"
 	"time"
+
+	"github.com/ErdemOzgen/blackdagger/verifh/pgrp"
 )
 
 // Event is one numbered watched system call.
@@ -134,6 +136,8 @@ func Run(o Opts, scratch string, cmd ...string) (*Result, error) {
 		pr.Close()
 		return nil, err
 	}
+	grp := pgrp.Open(c.Process.Pid)
+	defer grp.Close()
 	pw.Close()
 	ackCh := make(chan []string, 1)
 	go func() {
@@ -156,10 +160,10 @@ func Run(o Opts, scratch string, cmd ...string) (*Result, error) {
 	case <-done:
 	case <-time.After(to):
 		res.TimedOut = true
-		_ = syscall.Kill(-c.Process.Pid, syscall.SIGKILL)
+		grp.Kill()
 		<-done
 	}
-	_ = syscall.Kill(-c.Process.Pid, syscall.SIGKILL)
+	grp.Kill() // leftovers of the group, if any (by pidfd: never a later owner of the number)
 	select {
 	case res.Acks = <-ackCh:
 	case <-time.After(5 * time.Second):
@@ -210,6 +214,7 @@ func Run(o Opts, scratch string, cmd ...string) (*Result, error) {
 
 // Paused is a traced process that stops before watched call K until Resume.
 type Paused struct {
+	grp     *pgrp.Handle
 	cmd     *exec.Cmd
 	stdin   io.WriteCloser
 	logName string
@@ -268,7 +273,7 @@ func StartPaused(o Opts, k int, scratch string, cmd ...string) (*Paused, error) 
 		return nil, err
 	}
 	pw.Close()
-	p := &Paused{cmd: c, stdin: stdin, logName: logf.Name(), out: &lockedBuf{}, paused: make(chan string, 1), done: make(chan struct{})}
+	p := &Paused{grp: pgrp.Open(c.Process.Pid), cmd: c, stdin: stdin, logName: logf.Name(), out: &lockedBuf{}, paused: make(chan string, 1), done: make(chan struct{})}
 	go func() {
 		sc := bufio.NewScanner(pr)
 		sc.Buffer(make([]byte, 1<<16), 1<<22)
@@ -318,10 +323,10 @@ func (p *Paused) Wait(limit time.Duration) (exit int, output string, timedOut bo
 	case <-p.done:
 	case <-time.After(limit):
 		timedOut = true
-		_ = syscall.Kill(-p.cmd.Process.Pid, syscall.SIGKILL)
+		p.grp.Kill()
 		<-p.done
 	}
-	_ = syscall.Kill(-p.cmd.Process.Pid, syscall.SIGKILL)
+	p.grp.KillClose() // leftovers of the group, if any
 	os.Remove(p.logName)
 	if p.cmd.ProcessState != nil {
 		exit = p.cmd.ProcessState.ExitCode()
